@@ -460,6 +460,9 @@ def run(ctx):
     # 0 is an ordinary id / value / address: nothing int-valued may be tested by truthiness (nqsa/truth.py)
     from .. import truth
     truth.check(ctx, "C03.Z", ['netqasm.lang.parsing.text'])
+    # a value remembered for later calls is keyed by every argument it depends on (nqsa/memo.py)
+    from .. import memo
+    memo.check(ctx, "C03.K", ['netqasm.lang.parsing.text'])
 
 
 T = "netqasm/lang/parsing/text.py"
